@@ -285,7 +285,7 @@ func (rn *c15Runner) probeFixes() {
 
 // guard runs fn with a watchdog: an operation of the code under test that does not return within
 // the limit is reported as an observation ("hang") instead of blocking the harness forever.
-func (rn *c15Runner) guard(what string, fn func()) {
+func (rn *c15Runner) guard(what string, limit time.Duration, fn func()) {
 	done := make(chan struct{})
 	var pv any
 	go func() {
@@ -298,7 +298,7 @@ func (rn *c15Runner) guard(what string, fn func()) {
 		if pv != nil {
 			panic(pv)
 		}
-	case <-time.After(60 * time.Second):
+	case <-time.After(limit):
 		rn.out.Line("hang %s", what)
 		rn.hung = true
 	}
@@ -395,7 +395,15 @@ func (rn *c15Runner) run(k int, seed uint64, c *c15Case) {
 			return ""
 		}
 		op := op
-		rn.guard(op.kind, func() {
+		// one minute per operation, plus a minute per 8 MiB of the case's largest content (the 256 MB SQL
+		// part takes minutes on a loaded machine)
+		limit := time.Minute
+		for _, b := range c.contents {
+			if l := time.Minute * time.Duration(1+len(b)/(8<<20)); l > limit {
+				limit = l
+			}
+		}
+		rn.guard(op.kind, limit, func() {
 			switch op.kind {
 			case "put":
 				notx := op.notx && cp
